@@ -29,8 +29,12 @@ def make_listing(rng: random.Random, style: str) -> List[L.SInst]:
             i = rng.randrange(len(insts))
             w = rng.randint(2, 3)
             block = insts[i:i + w]
+            permute = rng.random() < 0.5
             for _ in range(rng.randint(1, 3)):
-                for s_ in reversed(block):
+                rep = list(block)
+                if permute:
+                    rng.shuffle(rep)      # repetitions of an any-order group may come in different orders
+                for s_ in reversed(rep):
                     insts.insert(i, L.SInst(0, s_.mnem, list(s_.ops), s_.annotation, None, s_.nbytes))
         insts = insts[:60]
     elif style == "dups":
